@@ -22,11 +22,30 @@ def impl_fields(F, cls, inherited=True):
     return out
 
 
+def _thisish(f, n, depth=0):
+    """is_this_like, also through a local that was initialised once from the object's own state (`auto impl = pFunc();`, `auto *d = mPimpl;`)"""
+    if is_this_like(n):
+        return True
+    x = n
+    while x is not None and x.get('k') == 'Call' and x.get('opc') in ('->', '*') and x.get('c'):
+        x = x['c'][0]
+    while x is not None and x.get('k') in ('Cast', 'Paren') and len(x.get('c', [])) == 1:
+        x = x['c'][0]
+    if x is not None and x.get('k') == 'Ref' and x.get('dk') == 'local' and depth < 3:
+        from engines import single_def
+        i_ = single_def(f, x.get('d'))
+        while i_ is not None and i_.get('k') in ('Cast', 'Paren', 'Temp', 'Bind') and len(i_.get('c', [])) == 1:
+            i_ = i_['c'][0]
+        if i_ is not None and i_.get('k') != 'Ref' and (i_.get('k') in ('This',) or (i_.get('k') == 'Call' and i_.get('fn') == 'pFunc') or (i_.get('k') == 'Member' and i_.get('n') == 'mPimpl')):
+            return True
+    return False
+
+
 def this_calls(F, f):
     """Resolved callees of member calls whose receiver is this-like (this, pFunc(), mPimpl)."""
     out = []
     for n in f.walk():
-        if n.get('k') == 'Call' and n.get('mc') and not n.get('opc') and n.get('c') and is_this_like(n['c'][0]):
+        if n.get('k') == 'Call' and n.get('mc') and not n.get('opc') and n.get('c') and _thisish(f, n['c'][0]):
             for ck in F.callee_keys(n):
                 if ck in F.funcs:
                     out.append((n, F.funcs[ck]))
@@ -42,7 +61,7 @@ def this_reads(F, f, depth=0, seen=None):
     for n in f.walk():
         if n.get('k') == 'Member' and n.get('field'):
             c = n.get('c', [])
-            if is_this_like(c[0] if c else None):
+            if _thisish(f, c[0] if c else None):
                 # a pure write (assignment target) is not a read
                 p = f.parent(n)
                 if p is not None and p.get('k') in ('Bin',) and p.get('op') == '=' and p['c'][0] is n:
@@ -64,7 +83,7 @@ def this_writes(F, f, depth=0, seen=None):
     for n in f.walk():
         if n.get('k') == 'Member' and n.get('field'):
             c = n.get('c', [])
-            if is_this_like(c[0] if c else None) and is_write_context(f, n):
+            if _thisish(f, c[0] if c else None) and is_write_context(f, n):
                 out.add(n['n'])
     for n, g in this_calls(F, f):
         out |= this_writes(F, g, depth + 1, seen)
